@@ -665,3 +665,215 @@ Example na_blocks_until_ctx_nonvacuous :
 Proof.
   split; eexists; eexists; (split; [eexists; vm_compute; reflexivity|]); vm_compute; repeat split; reflexivity.
 Qed.
+
+(* ------------------------------------------------------------------ *)
+(* 6. termination of the internal steps: a measure that every step of a goroutine of Loop, of an abstract
+   server, and of the accepter honouring ctx decreases *)
+
+Definition is_internal (l : label) : bool :=
+  match l with
+  | AcceptErr _ | LoopReturn _ | NewSvc _ | AssignerOk _ | AssignerFail _ | StartSrv _
+  | SrvStop _ _ | SrvExit _ _ | Finish _ | ConnDone _ => true
+  | _ => false
+  end.
+
+(* steps a connection in phase p can still take *)
+Definition rem_steps (p : phase) : nat :=
+  match p with
+  | PAccepted => 7 | PHasSvc => 6 | PAssigned => 5 | PRunning => 4 | PStopping _ => 3
+  | PExited _ => 2 | PFinished _ => 1 | PFailed => 1 | PDoneOk _ | PDoneFail => 0
+  end.
+Definition acc_steps (a : astat) : nat := match a with Accepting => 2 | Waiting _ => 1 | Returned _ => 0 end.
+Fixpoint sum_rem (cs : list conn) : nat :=
+  match cs with [] => 0 | c :: r => rem_steps (c_phase c) + sum_rem r end.
+Definition mu (s : state) : nat := acc_steps (acc s) + sum_rem (conns s).
+
+Lemma sum_rem_upd : forall cs k f c, nth_error cs k = Some c ->
+  sum_rem (upd_nth k f cs) + rem_steps (c_phase c) = sum_rem cs + rem_steps (c_phase (f c)).
+Proof.
+  induction cs as [|x cs IH]; intros [|k] f c H; simpl in H; try discriminate.
+  - inversion H; subst. simpl. lia.
+  - specialize (IH k f c H). simpl. lia.
+Qed.
+
+Lemma mu_decreases : forall s l s' os, step s l = Some (s', os) -> is_internal l = true -> mu s' < mu s.
+Proof.
+  intros s l s' os H IL. unfold mu.
+  destruct l; try discriminate IL; inv_step H; simpl; try lia;
+    try (destruct (fix_F10 s); simpl);
+    match goal with
+    | E : get s ?k = Some ?c |- context [upd_nth ?k ?f _] =>
+        pose proof (sum_rem_upd (conns s) k f c E) as L; simpl in L; rw_phase; simpl in L; lia
+    end.
+Qed.
+
+(* an environment step leaves the measure alone, except a new connection (+7) and ... nothing else *)
+Lemma mu_env : forall s l s' os, step s l = Some (s', os) -> is_internal l = false ->
+  mu s' = mu s + (match l with Accept _ => 7 | _ => 0 end).
+Proof.
+  intros s l s' os H IL. unfold mu.
+  destruct l; try discriminate IL; inv_step H; simpl; try lia;
+    try (match goal with
+         | E : get s ?k = Some ?c |- context [upd_nth ?k ?f _] =>
+             pose proof (sum_rem_upd (conns s) k f c E) as L; simpl in L; lia
+         end).
+  assert (X : forall cs, sum_rem (cs ++ [new_conn]) = sum_rem cs + 7).
+  { induction cs as [|x cs IH]; simpl; [reflexivity|]. rewrite IH. lia. }
+  rewrite X, ?Heqa. simpl. lia.
+Qed.
+
+(* every run of internal steps is bounded by the measure: no infinite sequence of internal steps *)
+Lemma internal_run_bounded : forall tr s s' os, run s tr = Some (s', os) -> forallb is_internal tr = true ->
+  length tr + mu s' <= mu s.
+Proof.
+  induction tr as [|l tr IH]; intros s s' os H F.
+  - simpl in H. inversion H; subst. simpl. lia.
+  - cbn [run] in H. destruct (step s l) as [[s1 o1]|] eqn:E; [|discriminate].
+    destruct (run s1 tr) as [[s2 o2]|] eqn:E2; [|discriminate]. inversion H; subst.
+    simpl in F. apply andb_true_iff in F. destruct F as [F1 F2].
+    pose proof (mu_decreases _ _ _ _ E F1). specialize (IH _ _ _ E2 F2). simpl. lia.
+Qed.
+
+Lemma conns_enabled_inv : forall hooks ctx cs off l, In l (conns_enabled hooks ctx off cs) ->
+  exists k c, nth_error cs k = Some c /\ In l (conn_enabled hooks ctx (off + k) c).
+Proof.
+  induction cs as [|x cs IH]; intros off l H; simpl in H; [destruct H|].
+  apply in_app_or in H. destruct H as [H|H].
+  - exists 0, x. rewrite Nat.add_0_r. split; [reflexivity|exact H].
+  - destruct (IH _ _ H) as [k [c [A B]]]. exists (S k), c. split; [exact A|]. now rewrite <- Nat.add_succ_comm.
+Qed.
+
+(* what [enabled_internal] lists is internal and can be taken (on reachable states) *)
+Lemma enabled_internal_sound : forall tr s l, reach tr s -> In l (enabled_internal s) ->
+  is_internal l = true /\ exists s' os, step s l = Some (s', os).
+Proof.
+  intros tr s l R H. pose proof (reach_inv _ _ R) as I. unfold enabled_internal, enabled in H.
+  apply in_app_or in H. destruct H as [H|H].
+  - destruct (acc s) eqn:A.
+    + destruct (ctx_done s); [|destruct H]. destruct H as [<-|[]]. split; [reflexivity|].
+      unfold step. rewrite A. eexists; eexists; reflexivity.
+    + destruct (wg s) eqn:W; [|destruct H]. destruct H as [<-|[]]. split; [reflexivity|].
+      unfold step. rewrite A, W. destruct e; simpl; eexists; eexists; reflexivity.
+    + destruct H.
+  - apply conns_enabled_inv in H. destruct H as [k [c [G H]]]. simpl in H. fold (get s k) in G.
+    pose proof (inv_data _ _ I _ _ G) as D. unfold data_ok in D. unfold conn_enabled in H.
+    destruct (c_phase c) eqn:P; cbv beta iota in H.
+    + destruct H as [<-|[]]. split; [reflexivity|]. unfold step. rewrite G, P. eexists; eexists; reflexivity.
+    + destruct D as [[i [S _]] _]. destruct H as [<-|[<-|[]]]; (split; [reflexivity|]); unfold step; rewrite G, P, S;
+        eexists; eexists; reflexivity.
+    + destruct H as [<-|[]]. split; [reflexivity|]. unfold step. rewrite G, P. eexists; eexists; reflexivity.
+    + destruct H as [<-|[]]. split; [reflexivity|]. unfold step. rewrite G, P.
+      assert (W : wg s <> 0).
+      { rewrite (inv_wg _ _ I). intros Z. pose proof (live_zero_done _ Z k c G) as X. rewrite P in X. discriminate. }
+      destruct (wg s); [congruence|]. eexists; eexists; reflexivity.
+    + apply filter_In in H. destruct H as [H T].
+      destruct H as [<-|[<-|[<-|[]]]]; (split; [reflexivity|]); unfold step; rewrite G, P, T; eexists; eexists; reflexivity.
+    + destruct (c_busy c) eqn:B; [|destruct H]. destruct H as [<-|[]]. split; [reflexivity|].
+      unfold step. rewrite G, P, B. destruct (status_eq_dec st st); [|congruence]. eexists; eexists; reflexivity.
+    + destruct D as [i [S [_ [A _]]]]. destruct H as [<-|[]]. split; [reflexivity|].
+      unfold step. rewrite G, P, S, A. eexists; eexists; reflexivity.
+    + destruct H as [<-|[]]. split; [reflexivity|]. unfold step. rewrite G, P.
+      assert (W : wg s <> 0).
+      { rewrite (inv_wg _ _ I). intros Z. pose proof (live_zero_done _ Z k c G) as X. rewrite P in X. discriminate. }
+      destruct (wg s); [congruence|]. eexists; eexists; reflexivity.
+    + destruct H.
+    + destruct H.
+Qed.
+
+(* EVENTUALLY QUIESCENT: from every reachable state the internal steps alone lead, in at most [mu s] steps, to
+   a quiescent state (whatever internal step is chosen each time: see internal_run_bounded) *)
+Lemma eventually_quiescent : forall n tr s, reach tr s -> mu s <= n ->
+  exists tr' s', forallb is_internal tr' = true /\ reach (tr ++ tr') s' /\ quiescent s' = true /\
+                 length tr' <= mu s /\ (exists os, run s tr' = Some (s', os)).
+Proof.
+  induction n as [|n IH]; intros tr s R M.
+  - exists [], s. rewrite app_nil_r. repeat split; auto.
+    + unfold quiescent. destruct (enabled_internal s) as [|l r] eqn:E; [reflexivity|].
+      destruct (enabled_internal_sound _ _ l R) as [IL [s' [os H]]]; [rewrite E; now left|].
+      pose proof (mu_decreases _ _ _ _ H IL). lia.
+    + simpl. lia.
+    + exists []. reflexivity.
+  - destruct (enabled_internal s) as [|l r] eqn:E.
+    + exists [], s. rewrite app_nil_r. repeat split; auto.
+      * unfold quiescent. now rewrite E.
+      * simpl. lia.
+      * exists []. reflexivity.
+    + destruct (enabled_internal_sound _ _ l R) as [IL [s1 [o1 H]]]; [rewrite E; now left|].
+      pose proof (mu_decreases _ _ _ _ H IL) as D.
+      destruct (IH (tr ++ [l]) s1) as [tr' [s' [F [R' [Q [L [o2 H2]]]]]]]; [eapply reach_snoc; eauto|lia|].
+      exists (l :: tr'), s'. split; [simpl; now rewrite IL, F|]. split; [now rewrite <- app_assoc in R'|].
+      split; [exact Q|]. split; [simpl; lia|].
+      exists (o1 ++ o2). cbn [run]. now rewrite H, H2.
+Qed.
+
+(* internal steps do not touch the context, the peers or the handlers *)
+Lemma internal_frame : forall s l s' os, step s l = Some (s', os) -> is_internal l = true ->
+  ctx_done s' = ctx_done s /\
+  forall k c', get s' k = Some c' -> exists c, get s k = Some c /\ c_busy c' = c_busy c /\
+                                               c_pclosed c' = c_pclosed c /\ c_pfailed c' = c_pfailed c.
+Proof.
+  intros s l s' os H IL. split; [apply (step_ctx_same _ _ _ _ H); intros ->; discriminate|].
+  intros j cj Hj.
+  destruct l; try discriminate IL; inv_step H; gs; try (destruct (fix_F10 s)); gs;
+    try (exists cj; auto; fail);
+    match goal with E : get s ?k = Some ?c |- _ =>
+      split_get j k Hj; [rewrite E in Hj; simpl in Hj; inversion Hj; subst; exists c; simpl; auto | exists cj; auto]
+    end.
+Qed.
+
+Lemma internal_run_frame : forall tr s s' os, run s tr = Some (s', os) -> forallb is_internal tr = true ->
+  ctx_done s' = ctx_done s /\
+  forall k c', get s' k = Some c' -> exists c, get s k = Some c /\ c_busy c' = c_busy c /\
+                                               c_pclosed c' = c_pclosed c /\ c_pfailed c' = c_pfailed c.
+Proof.
+  induction tr as [|l tr IH]; intros s s' os H F.
+  - simpl in H. inversion H; subst. split; [reflexivity|]. intros k c' G. exists c'. auto.
+  - cbn [run] in H. destruct (step s l) as [[s1 o1]|] eqn:E; [|discriminate].
+    destruct (run s1 tr) as [[s2 o2]|] eqn:E2; [|discriminate]. inversion H; subst.
+    simpl in F. apply andb_true_iff in F. destruct F as [F1 F2].
+    destruct (internal_frame _ _ _ _ E F1) as [A B]. destruct (IH _ _ _ E2 F2) as [A' B'].
+    split; [congruence|]. intros k c' G. destruct (B' k c' G) as [c1 [G1 [X1 [X2 X3]]]].
+    destruct (B k c1 G1) as [c [G0 [Y1 [Y2 Y3]]]]. exists c. repeat split; congruence.
+Qed.
+
+(* EVENTUALLY (trace form of c20_ctx_stops_all): once the context has ended and no handler is running, the
+   internal steps alone - at most [mu s] of them, in whatever order - bring Loop to return *)
+Lemma ctx_end_eventually_returns : forall tr s, reach tr s -> ctx_done s = true ->
+  (forall k c, get s k = Some c -> c_busy c = 0) ->
+  exists tr' s', forallb is_internal tr' = true /\ length tr' <= mu s /\ reach (tr ++ tr') s' /\
+                 quiescent s' = true /\ returned s' = true /\
+                 (forall k c, get s' k = Some c -> is_done (c_phase c) = true).
+Proof.
+  intros tr s R C NB.
+  destruct (eventually_quiescent (mu s) tr s R (le_n _)) as [tr' [s' [F [R' [Q [L [os H]]]]]]].
+  destruct (internal_run_frame _ _ _ _ H F) as [C' B'].
+  assert (NB' : forall k c, get s' k = Some c -> c_busy c = 0).
+  { intros k c G. destruct (B' k c G) as [c0 [G0 [X _]]]. rewrite X. exact (NB k c0 G0). }
+  assert (CD : ctx_done s' = true) by congruence.
+  destruct (ctx_stops_all _ _ R' CD) as [_ [_ [_ H4]]]. destruct (H4 Q) as [H5 [_ H6]].
+  exists tr', s'. repeat split; auto.
+  intros k c G. destruct (H5 k c G) as [D|[st [_ B]]]; [exact D|]. rewrite (NB' k c G) in B. lia.
+Qed.
+
+(* ... and the same for an accepter failure without context end, as far as it goes without the environment:
+   eventually a quiescent state, where (c20_quiescent_general) Loop has returned unless a server still runs *)
+Lemma accept_failure_eventually : forall tr s e, reach tr s -> In (AcceptErr e) tr ->
+  exists tr' s', forallb is_internal tr' = true /\ length tr' <= mu s /\ reach (tr ++ tr') s' /\ quiescent s' = true /\
+    ((forall k c, get s' k = Some c -> c_phase c <> PRunning /\ forall st, c_phase c <> PStopping st) ->
+       acc s' = Returned (retv_of e) /\ In (LoopReturn (retv_of e)) (tr ++ tr')).
+Proof.
+  intros tr s e R Hin.
+  destruct (eventually_quiescent (mu s) tr s R (le_n _)) as [tr' [s' [F [R' [Q [L _]]]]]].
+  exists tr', s'. repeat split; auto.
+  - destruct (quiescent_general _ _ R' Q) as [_ [_ [_ G]]]. destruct (G H e) as [A _]; [apply in_or_app; now left|exact A].
+  - destruct (quiescent_general _ _ R' Q) as [_ [_ [_ G]]]. destruct (G H e) as [_ [A _]]; [apply in_or_app; now left|exact A].
+Qed.
+
+Example eventually_nonvacuous :
+  exists s, reach [Accept 0; NewSvc 0; AssignerOk 0; StartSrv 0; Accept 1; CtxEnd] s /\ ctx_done s = true /\
+            (forall k c, get s k = Some c -> c_busy c = 0) /\ mu s = 13 /\ quiescent s = false.
+Proof.
+  eexists. split; [eexists; vm_compute; reflexivity|]. split; [vm_compute; reflexivity|]. split.
+  { intros k c H. vm_compute in H. destruct k as [|[|[|k]]]; simpl in H; inversion H; subst; reflexivity. }
+  split; vm_compute; reflexivity.
+Qed.
